@@ -65,6 +65,11 @@ Json plan_to_json(const Plan &p) {
     for (int x : p.schedule) s.push(x);
     j.set("schedule", s);
   }
+  if (!p.history.empty()) {
+    Json hs = Json::arr();
+    for (auto &h : p.history) hs.push(plan_to_json(h));
+    j.set("history", hs);
+  }
   return j;
 }
 
@@ -76,6 +81,7 @@ Plan plan_from_json(const Json &j) {
   if (auto pr = j.find("project")) p.proj = project_from_json(*pr);
   if (auto ts = j.find("tasks")) for (auto &tj : ts->a) { Task t; t.proj = project_from_json(tj.at("project")); t.ops = ops_from_json(tj.at("ops")); p.tasks.push_back(t); }
   if (auto s = j.find("schedule")) for (auto &x : s->a) p.schedule.push_back((int)x.n);
+  if (auto hs = j.find("history")) for (auto &hj : hs->a) p.history.push_back(plan_from_json(hj));
   return p;
 }
 
@@ -190,6 +196,11 @@ Plan gen_plan(const std::string &prop, uint64_t verif_seed, long long run, long 
   else if (w == "fs") p = gen_fs_plan(prop, rng, sub, tier);
   else p = gen_mt_plan(prop, rng, sub, tier);
   p.prop = prop; p.seed = verif_seed; p.run = run; p.sub = sub;
+  if (p.world == "vm" || p.world == "fs") {
+    // one run in eight starts in a process that has already compiled a sibling of this project (own generator: the plan itself is unchanged)
+    Rng hr(seed_i ^ 0x9e3779b97f4a7c15ULL);
+    if (hr.chance(1, 8)) attach_history(p, hr);
+  }
   return p;
 }
 
@@ -197,6 +208,11 @@ Outcome exec_plan(const Plan &plan, bool trace, const std::string &only_oracle) 
   Ctx ctx;
   ctx.focus = plan.prop; ctx.trace = trace; ctx.only_oracle = only_oracle;
   Outcome out;
+  // what this process did earlier: executed in full, outcomes not judged (a crash in there is a crash of this run, attributed by phase as usual)
+  if (!plan.history.empty()) {
+    for (auto &h : plan.history) { Outcome ho = exec_plan(h, false); (void)ho; }
+    ctx.stats.inc("fault_earlier_plans_in_process", (long long)plan.history.size());
+  }
   install_hook(nullptr);
   set_phase(PH_HARNESS);
   try {
